@@ -588,6 +588,8 @@ def credit_oracle():
 def correspond(ctx, corr, model_ok):
     from harness import battery
     battery.run(corr, ['rx-disposal', 'rx-credit'])
+    corr.oracle_failures.extend(adapter_session_oracle())
+    corr.count('handler adapters per connection: own delegate, calls in arrival order; Rx requester vs core responder flagging COMPLETE', 10)
     cases = gen_cases(ctx, ctx.scale(150, 1500))
     coq = []
     for c in cases:
@@ -635,4 +637,110 @@ def replay(obj):
     if _r is not None:
         return _r
     case = obj.get('case') or obj
+    if 'adapter_session' in case:
+        return bool(adapter_session_oracle())
     return bool(oracle(run_case(case['rx_case'])))
+
+
+# ---------------------------------------------------------------------------------------------
+# the handler adapters as a whole-connection matter: one delegate per connection, delegate calls in arrival order
+
+def adapter_session_oracle():
+    """(a) a wrapped handler factory used for several connections builds a NEW delegate for each, as the core API does;
+    (b) a fire-and-forget followed at once by a request-response reaches the delegate in that order and is awaited;
+    (c) an Rx stream requester against a CORE responder that flags COMPLETE on its last element writes nothing afterwards"""
+    import asyncio
+    from rsocket.payload import Payload
+    from rsocket.request_handler import BaseRequestHandler
+    from rsocket.streams.stream_from_generator import StreamFromGenerator
+    out = []
+    for ver in ('rx4', 'rx3'):
+        L = libs(ver)
+        R = L['R']
+        made = []
+
+        class D(L['Base']):
+            def __init__(self):
+                made.append(self)
+                self.calls = []
+                self.note = b''
+
+            async def request_fire_and_forget(self, payload):
+                await asyncio.sleep(0)                   # a handler that takes a moment
+                self.note = bytes(payload.data)
+                self.calls.append('fnf')
+
+            async def request_response(self, payload):
+                self.calls.append('rr')
+                return R.of(Payload(b'remembered: ' + self.note))
+        wrapped = L['hf'](lambda: D())
+        a1, a2 = wrapped(), wrapped()
+        d1, d2 = getattr(a1, 'delegate', None), getattr(a2, 'delegate', None)
+        if len(made) != 2 or d1 is d2 or d1 is None:
+            out.append({'what': '%s: a wrapped handler factory called for two connections built %d delegate(s); the two adapters share '
+                                'their delegate: %s' % (ver, len(made), d1 is d2), 'adapter_session': ver})
+        # (b)
+        net = NET.Net(True, None, None, handler_factories={'server': wrapped})
+        try:
+            box = {}
+
+            def both():
+                net.ep['client'].fire_and_forget(Payload(b'remember me'))
+                box['f'] = net.ep['client'].request_response(Payload(b'what did I say'))
+            net.act(both)
+            net.flush(random.Random(1))
+            for _ in range(10):
+                net.loop.tick()
+            net.flush(random.Random(2))
+            d = made[-1]
+            ans = bytes(box['f'].result().data) if box['f'].done() and not box['f'].exception() else None
+            if d.calls != ['fnf', 'rr'] or ans != b'remembered: remember me':
+                out.append({'what': '%s: fire-and-forget then request-response through the handler adapter: delegate calls %s, answer %r '
+                                    '(the core API handles them in arrival order, each awaited)' % (ver, d.calls, ans),
+                            'adapter_session': ver})
+        finally:
+            net.finish()
+        # (c)
+        class Core(BaseRequestHandler):
+            async def request_stream(self, payload):
+                def g():
+                    yield Payload(b'v0'), False
+                    yield Payload(b'v1'), False
+                    yield Payload(b'v2'), True
+                return StreamFromGenerator(g)
+        for limit in (1, 2, MAXN):
+            net = NET.Net(False, None, None, handler_factories={'server': Core})
+            try:
+                client = L['Client'](net.ep['client'])
+                timeline = []
+                net.dispatched['client'].on_append = lambda d_: timeline.append(('recv', d_))
+                net.tc.wire = NET.LogList(net.tc.wire)
+                net.tc.wire.on_append = lambda b: timeline.append(('sent', sim.parse_sent(b)))
+                obs = Obs()
+                o = client.request_stream(Payload(b'req'), request_limit=limit)
+                net.act(lambda: o.subscribe(on_next=obs.on_next, on_error=obs.on_error, on_completed=obs.on_completed))
+                rng = random.Random(limit)
+                for _ in range(200):
+                    net.flush(rng)
+                    for _ in range(3):
+                        net.loop.tick()
+                    if not any(net.t[s].pending() for s in ('client', 'server')):
+                        break
+                ended = False
+                late = None
+                for what, f in timeline:
+                    if f.get('sid') != 1:
+                        continue
+                    if what == 'recv' and f['t'] == 'Payload' and f.get('complete'):
+                        ended = True
+                    elif what == 'sent' and ended:
+                        late = f
+                        break
+                evs = [e[0] for e in obs.events]
+                if late is not None or evs != ['next', 'next', 'next', 'completed']:
+                    out.append({'what': '%s stream requester (limit %s) against a core responder that flags COMPLETE on its last element: observer '
+                                        'saw %s; written after the terminal frame had been received: %r' % (ver, limit, evs, late),
+                                'adapter_session': ver})
+            finally:
+                net.finish()
+    return out
